@@ -115,7 +115,7 @@ def complex_table():
     t[("fn", "abs(")] = pats("(Ok (call Complex::new (call Complex::norm %s) (lit 0.0 f64)))" % A0)
     t[("fn", "lb(")] = pats("(Ok (call Complex::log %s (lit 2.0 f64)))" % A0, "(Ok (call Complex::log2 %s))" % A0)
     t[("fn", "log(")] = pats("(Ok (call \"<Complex as ops::Div>::div\" (call Complex::ln %s) (call Complex::ln %s)))" % (A0, A1))
-    t[("fn", "root(")] = pats("(Ok (call Complex::powc %s (call \"<f64 as ops::Div<Complex>>::div\" (lit 1.0 f64) %s)))" % (A1, A0),
+    t[("fn", "root(")] = pats("(Ok (call Complex::powc %s (call \"<f64 as ops::Div>::div\" (lit 1.0 f64) %s)))" % (A1, A0),
                               "(Ok (call Complex::powc %s (call Complex::inv %s)))" % (A1, A0))
     return t
 
